@@ -11,6 +11,7 @@ EXPR = {"int": "7", "float": "2.5", "str": "'hi'", "bool": "True", "none": "None
         # the placeholder students leave in unfinished code, and the other literal kinds Python has
         "ellipsis": "...", "bytes": "b'ab'", "complex": "2j",
         # repetition by literal counts, small and absurdly large (nothing is executed: the analysis must not try to)
+        "lambdaarity": "(lambda z: z)(n, 2)",          # an anonymous function called with one argument too many
         "tuplerep": "(1, n) * 3", "hugerep": "(1, 'a') * 99999999999999999999", "strrep": "'ab' * 1000000000000"}
 STMT = {"assign": "v = {E}\nprint(v)", "augassign": "acc = {E}\nacc += {E}\nprint(acc)", "exprstmt": "print({E})",
         "if": "if {E}:\n    print(1)\nelse:\n    print(2)", "while": "k = 0\nwhile k < 2:\n    v = {E}\n    k += 1\n    print(v)",
@@ -201,13 +202,21 @@ def replay_chunk(cases, extra):
                 first["c"] = issues_of(tifa_analysis(src, report=Report()))
             except Exception:
                 first = {}
+        # every other history is analysed with the HTML formatter on the report (what the web environments install):
+        # building an issue's message must not be what makes the analysis fail
+        html = idx % 2 == 1
         clear_report()
         contextualize_report(src)
+        if html:
+            from pedal.core.formatting import HtmlFormatter
+            R.set_formatter(HtmlFormatter(R))
         since_clear = {}
         for step, h in enumerate(rec["hist"], 1):
             if h["op"] == "clear":
                 clear_report()
                 contextualize_report(src)
+                if html:
+                    R.set_formatter(HtmlFormatter(R))
                 since_clear = {}
                 continue
             p = h["p"]
